@@ -45,7 +45,7 @@ prop( 'C16', [ 'T-RESERVED', 'D-DELEGATE', 'D-RESOLVE', 'D-UNPACK', 'D-ITER', 'D
       not_decided='path semantics over operation sequences (lookup/iteration/copy agreement is a dynamic, history-dependent claim).',
       technique='name-set comparison over class AST; delegation-shape checks' )
 
-prop( 'C19', [ 'M-EXTENT', 'M-TILE', 'M-BANK', 'M-LIMIT', 'M-PIECES', 'M-SNAPSHOT', 'W-ASSERT', 'W-CLASSSTATE', 'M-READCOUNT' ],
+prop( 'C19', [ 'M-EXTENT', 'M-TILE', 'M-BANK', 'M-LIMIT', 'M-PIECES', 'M-SNAPSHOT', 'W-ASSERT', 'W-CLASSSTATE', 'M-READCOUNT', 'M-POLLLIMIT' ],
       decides='M-PIECES: every range merge yields is a piece of a shatter() generator that is consumed by the emitting loop only (a second use of the generator object would leave nothing to yield).  M-EXTENT: in merge\'s sorted sweep the running length update in the merge branch depends on its previous value '
               '(monotone join), so a nested/duplicate range cannot shrink the extent; M-TILE: shatter yields (address, taken) once, '
               'advances address and shrinks count by the same taken = min( count, limit ); M-BANK: the merge condition, evaluated as a decision table over a grid of ( running range, next start, reach ) cells, merges exactly when the next range begins inside the running one ( whatever its 10000-block ) or lies in the same 10000-block with a gap below the reach; an empty range never extends the running range; over sorted '
@@ -54,7 +54,7 @@ prop( 'C19', [ 'M-EXTENT', 'M-TILE', 'M-BANK', 'M-LIMIT', 'M-PIECES', 'M-SNAPSHO
       not_decided='disjointness/limit/reach arithmetic over all numeric inputs.',
       technique='def-use shape of the sweep loop (AST); merge condition decided as a folded decision table; who-iterates-what rule for the shared address table' )
 
-prop( 'C20', [ 'T-TNET', 'P-CHAIN', 'G-CHUNK', 'G-REF', 'P-SEPARATORS', 'T-TNETNUM' ],
+prop( 'C20', [ 'T-TNET', 'P-CHAIN', 'G-CHUNK', 'G-REF', 'P-SEPARATORS', 'T-TNETNUM', 'T-TNETPAYLOAD' ],
       decides='T-TNET: every type tag dump/dump_dict/dump_list emits has a parse branch whose conversion is the enumerated inverse of '
               'the encoder idiom (same encoding name on both sides), dispatch is by exact type, payload framing splits at the first '
               'colon and slices exactly the declared length, and the streaming machine has a DATA edge for every tag its TYPE state handles.  T-TNET also: the incremental parser converts each tag like tnetstrings.parse (same decoder kind; for text the batch parser\'s default codec).  P-SEPARATORS: the chunking clause of tnet_from that is visible in its shape - on every path from the site where a received block is chained back to the engine a discard of the ignored symbols is passed, that discard is guarded by source.sent == <marker only ever holding source.sent, set ahead of each engine run> (so payload bytes are never discarded) and the marker follows each discarded symbol.',
